@@ -185,10 +185,76 @@ func (c *FnCtx) globalFacts(o *types.Var, t Term) []string {
 	return gd.facts
 }
 
+// VerifyLemma proves a lemma: requires |- ensures, parameters arbitrary.
+func (e *Engine) VerifyLemma(key string) *FuncResult {
+	spec := e.Contracts.Funcs[key]
+	res := &FuncResult{Key: key, File: shortPath(spec.File)}
+	pk := e.PkgByName[spec.Pkg]
+	// a pseudo function context (no body)
+	fi := &FuncInfo{Key: key, Pkg: pk}
+	c := &FnCtx{eng: e, fi: fi, spec: spec, info: pk.TypesInfo, loopOrd: map[ast.Stmt]int{}, callOrd: map[*ast.CallExpr]string{},
+		siteOrd: map[string]int{}, specNames: map[string]types.Object{}}
+	st := NewState()
+	c.entry = st
+	names := map[string]Val{}
+	func() {
+		defer func() {
+			if r := recover(); r != nil {
+				if u, ok := r.(unsupportedErr); ok {
+					c.unsupported(token.NoPos, "%s", u.msg)
+					return
+				}
+				panic(r)
+			}
+		}()
+		if spec.Decl.Type.Params != nil {
+			for _, f := range spec.Decl.Type.Params.List {
+				tv, err := types.Eval(e.Fset, pk.Types, token.NoPos, exprString2(f.Type))
+				if err != nil {
+					panic(unsupportedErr{fmt.Sprintf("lemma %s: parameter type %s: %v", key, exprString2(f.Type), err)})
+				}
+				for _, n := range f.Names {
+					t := c.fresh(n.Name, e.Sorts.SortOf(tv.Type))
+					st.Assume(c.typeFacts(t, tv.Type))
+					names[n.Name] = Val{T: t, GoT: tv.Type}
+				}
+			}
+		}
+		env := &Env{c: c, st: st, names: names, pkg: pk}
+		for _, ax := range e.Contracts.Axioms {
+			aenv := &Env{c: c, st: st, names: map[string]Val{}, pkg: e.PkgByName[ax.Pkg]}
+			st.Assume(aenv.evalSpecBool(ax.Clause))
+		}
+		for _, r := range spec.Requires {
+			st.Assume(env.evalSpecBool(r))
+		}
+		c.oblige(st, "cover", "requires", "false", spec.Props, "lemma precondition is satisfiable")
+		c.obls[len(c.obls)-1].ExpectSat = true
+		for i, en := range spec.Ensures {
+			lbl := en.Label
+			if lbl == "" {
+				lbl = fmt.Sprintf("e%d", i+1)
+			}
+			props := en.Props
+			if props == nil {
+				props = spec.Props
+			}
+			c.oblige(st, "lemma", lbl, env.evalSpecBool(en), props, en.Expr)
+		}
+	}()
+	res.Obligations = c.obls
+	res.Unsupported = c.unsupp
+	res.Decls = c.decls
+	return res
+}
+
 // VerifyFunc generates all obligations of one function under contract.
 func (e *Engine) VerifyFunc(key string) *FuncResult {
-	fi := e.Funcs[key]
 	spec := e.Contracts.Funcs[key]
+	if spec != nil && spec.IsLemma {
+		return e.VerifyLemma(key)
+	}
+	fi := e.Funcs[key]
 	res := &FuncResult{Key: key}
 	if fi == nil {
 		res.Unsupported = append(res.Unsupported, "function "+key+" not found in /repo (contract without code)")
